@@ -336,6 +336,23 @@ Section KyFan.
     unfold mmul in E. rewrite E. unfold mI. rewrite delta_eq. ring.
   Qed.
 
+  Theorem ky_fan n d (M V Q : mat F) (lam : vec F) :
+    (d <= n)%nat ->
+    meq n n (mmul n (mtrans V) V) mI ->
+    meq n n (mmul n V (mtrans V)) mI ->
+    meq n n (mmul n M V) (mmul n V (mdiag lam)) ->
+    ascending n lam ->
+    meq d d (mmul n (mtrans Q) Q) mI ->
+    sumn d lam <== quad n d M Q /\
+    quad n d M Q <== sumn d (fun c => lam (n - d + c)%nat) /\
+    quad n d M (fun i c => V i (n - d + c)%nat) = sumn d (fun c => lam (n - d + c)%nat).
+  Proof.
+    intros Hd H1 H2 H3 H4 H5. split; [|split].
+    - exact (ky_fan_min n d M V Q lam Hd H1 H2 H3 H4 H5).
+    - exact (ky_fan_max n d M V Q lam Hd H1 H2 H3 H4 H5).
+    - apply (ky_fan_attained n d (n - d) M V lam); [lia|assumption|assumption].
+  Qed.
+
 End KyFan.
 
 (* ---------------- the Qc instance ---------------- *)
